@@ -8,7 +8,7 @@ use super::c03::{gen_fixed, gen_radial, Item};
 use crate::enc::{self, gen_msg31, gen_vcp, MsgHeader};
 use crate::ev::{hex, par_cases, Ctx, Obs};
 use crate::mon::{self, CountingReader};
-use crate::rng::{fnv, Rng};
+use crate::rng::{fnv, mix, Rng};
 use nexrad_decode::messages::clutter_filter_map::decode_clutter_filter_map;
 use nexrad_decode::messages::digital_radar_data::decode_digital_radar_data;
 use nexrad_decode::messages::rda_status_data::decode_rda_status_message;
@@ -651,9 +651,42 @@ fn segment_sequence(rng: &mut Rng) -> Vec<u8> {
     out
 }
 
+/// Two radials; the second one's last pointer is the two's complement of the distance back to a
+/// block of the first (or to its own message header).  Read as unsigned it lies far beyond the
+/// stream (an error); a decoder that reads block pointers as signed walks backwards, finishes on
+/// its own header and decodes the same message again and again.
+fn negative_pointer_stream(rng: &mut Rng) -> Vec<u8> {
+    let a = gen_radial(rng).bytes().to_vec();
+    let mut b = gen_radial(rng).bytes().to_vec();
+    let count_of = |m: &[u8]| -> usize { if m.len() >= 60 { u16::from_be_bytes([m[58], m[59]]) as usize } else { 0 } };
+    let (na, nb) = (count_of(&a), count_of(&b));
+    if na == 0 || nb == 0 || a.len() < 60 + 4 * na || b.len() < 60 + 4 * nb {
+        let mut s = a;
+        s.extend_from_slice(&b);
+        return s;
+    }
+    // absolute start of the first radial's physically last block
+    let last_ptr = (0..na).map(|i| u32::from_be_bytes([a[60 + 4 * i], a[61 + 4 * i], a[62 + 4 * i], a[63 + 4 * i]])).max().unwrap_or(0) as i64;
+    let target_abs: i64 = match rng.below(5) {
+        0 | 1 | 2 => 28 + last_ptr,                          // a whole block of the previous message
+        3 => a.len() as i64,                                  // its own message header
+        _ => (a.len() as i64) - 4 * rng.range(1, 40) as i64,  // somewhere shortly before itself
+    };
+    let start_b = a.len() as i64 + 28;
+    let p = (target_abs - start_b) as i32 as u32;
+    let slot = 60 + 4 * (nb - 1);
+    b[slot..slot + 4].copy_from_slice(&p.to_be_bytes());
+    let mut s = a;
+    s.extend_from_slice(&b);
+    s
+}
+
 pub fn gen_input(rng: &mut Rng) -> (Vec<u8>, &'static str) {
     if rng.chance(1, 40) {
         return (repeated_pointers31(rng), "repeated-pointers-type31");
+    }
+    if rng.chance(1, 25) {
+        return (negative_pointer_stream(rng), "negative-pointer-stream");
     }
     if rng.chance(1, 12) {
         return (segment_sequence(rng), "segment-sequence");
@@ -709,7 +742,7 @@ pub fn run(ctx: &mut Ctx) {
         println!("replay: recorded input was abbreviated; re-running the whole seeded workload");
     }
     ctx.rule = "a case is one byte string run through every decoding entry point (stream, header, type-31, RDA status, VCP, clutter map, contents of sampled or all 256 type codes; bodies also at offset 28) and, for every type-31 that decodes, radial()/into_radial(); \
-trivial = shorter than a message header; distinct = distinct input contents (FNV-1a); families: prefixes of valid streams/bodies, 1-8 bit/byte/field mutations biased to headers, field-directed extremes (block count 0/65535, pointers backwards/overlapping/self-referential/beyond end, 40-symbol and invalid-UTF-8 block names, gates 65535, word size 0..255, cut count 52..65535, zone count 65535, 255+ segments), runs of fixed frames whose segment count/number fields are mutually inconsistent, random bytes; \
+trivial = shorter than a message header; distinct = distinct input contents (FNV-1a); families: prefixes of valid streams/bodies, 1-8 bit/byte/field mutations biased to headers, field-directed extremes (block count 0/65535, pointers backwards/overlapping/self-referential/beyond end, 40-symbol and invalid-UTF-8 block names, gates 65535, word size 0..255, cut count 52..65535, zone count 65535, 255+ segments), runs of fixed frames whose segment count/number fields are mutually inconsistent, pairs of radials whose second carries a negative (two's-complement) block pointer back into the first, pairwise boundary values in the leading halfwords of every fixed-frame type with a decoder of its own, random bytes; \
 verdict monitors: panic hook, reader work <= 64*(plain-walk work + n) + 1 MiB (termination as bounded progress), allocator peak <= 64 MiB + 64*n"
         .into();
     ctx.assumptions = vec![
@@ -750,6 +783,46 @@ verdict monitors: panic hook, reader work <= 64*(plain-walk work + n) + 1 MiB (t
                 }
                 k -= s.len() + 1;
             }
+        });
+    }
+
+    // ---- pairwise boundary values in the leading halfwords of every fixed-frame type that has a
+    //      decoder of its own -------------------------------------------------------------------------------
+    // A fixed frame's fields are halfwords; length/pointer/count checks that guard each field alone
+    // can still be wrong for a *pair* (pointer + count just past a buffer).  For every type code
+    // whose contents decode to something other than the opaque placeholder, every pair of the first
+    // 24 body halfwords takes every pair of values from a boundary set around the frame's own sizes.
+    {
+        const BOUNDARY: [u16; 18] = [0, 1, 2, 3, 99, 100, 101, 2299, 2300, 2301, 2399, 2400, 2401, 2403, 2404, 2405, 0x8000, 0xFFFF];
+        let zero = vec![0u8; enc::FRAME_BODY];
+        let decoded_types: Vec<u8> = (0..=255u8)
+            .filter(|c| *c != 31)
+            .filter(|c| {
+                let t = message_type_of(*c);
+                !matches!(mon::catch(|| decode_message_contents(&mut Cursor::new(&zero[..]), t)), Ok(Ok(MessageContents::Other)))
+            })
+            .collect();
+        ctx.obs.count("fixed_frame_types_with_a_decoder_of_their_own", decoded_types.len() as u64);
+        let positions = 24usize;
+        let pairs: Vec<(usize, usize)> = (0..positions).flat_map(|i| (i + 1..positions).map(move |j| (i, j))).collect();
+        let (types_ref, pairs_ref) = (&decoded_types, &pairs);
+        par_cases(ctx, (decoded_types.len() * pairs.len()) as u64, |k, obs| {
+            let code = types_ref[k as usize / pairs_ref.len()];
+            let (i, j) = pairs_ref[k as usize % pairs_ref.len()];
+            let mut rng = Rng::derive(seed, 4, 5_000_000 + k);
+            let random_base = rng.bytes(enc::FRAME_BODY);
+            for (bi, base) in [&zero, &random_base].into_iter().enumerate() {
+                let mut body = base.clone();
+                for &vi in &BOUNDARY {
+                    for &vj in &BOUNDARY {
+                        body[2 * i..2 * i + 2].copy_from_slice(&vi.to_be_bytes());
+                        body[2 * j..2 * j + 2].copy_from_slice(&vj.to_be_bytes());
+                        run_op(obs, Op::Contents(code), &body, if bi == 0 { "pairwise-halfword-boundaries(zero base)" } else { "pairwise-halfword-boundaries(random base)" });
+                    }
+                }
+            }
+            obs.case(mix(0x9a1, k));
+            obs.count("pairwise_boundary_frames", 2 * (BOUNDARY.len() * BOUNDARY.len()) as u64);
         });
     }
 
